@@ -284,6 +284,10 @@ type Typedef struct {
 	Units       *Value `yang:"units"`
 
 	YangType *YangType `json:"-"`
+
+	// resolvedGen is the generation of the type dictionary in which
+	// YangType was resolved.
+	resolvedGen int
 }
 
 func (Typedef) Kind() string             { return "typedef" }
@@ -316,6 +320,9 @@ type Type struct {
 
 	// resolveErrs holds the errors found when YangType was resolved.
 	resolveErrs []error
+	// resolvedGen is the generation of the type dictionary in which
+	// YangType and resolveErrs were computed.
+	resolvedGen int
 	// resolving is set while the type is being resolved; meeting it
 	// again then means the type is defined in terms of itself.
 	resolving bool
